@@ -317,6 +317,14 @@ class Check:
             self.cov['evaluations'] += 1
             ch = str(case.get('chooser', ['-'])[0])
             self.cov['choosers'][ch] = self.cov['choosers'].get(ch, 0) + 1
+            sl = res.get('ahead_slack')
+            if sl:
+                # how close the real code came to the proved look-ahead bound (statistics only: C08_*_attained
+                # say the bound is reached in the model for every capacity; this is the same on the real runs)
+                d = self.cov['distribution'].setdefault('look-ahead observed on the real code (E1): ' + sl[0], {})
+                d['cases'] = d.get('cases', 0) + 1
+                d['max over cases'] = max(d.get('max over cases', -99), sl[1])
+                d[f'cases with slack {sl[1]}'] = d.get(f'cases with slack {sl[1]}', 0) + 1
             if scen.nontrivial(case, res):
                 key = dict(case)
                 h = hashlib.sha1(json.dumps([key, res.get('events')], sort_keys=True, default=str).encode()).hexdigest()
